@@ -1,4 +1,5 @@
 import CelmaVerif.Lemmas.RulesSound
+import CelmaVerif.Lemmas.RulesComplete
 import CelmaVerif.Lemmas.RulesExample
 /-
   C02 — "No command line that breaks a declared rule is silently accepted."
@@ -14,77 +15,94 @@ open CelmaVerif CelmaVerif.Keys CelmaVerif.ProgArgs
 
 /-- Soundness of all rules together: for every well-formed configuration (keys of the table pairwise
     distinct as `addArgument` guarantees, constraint keys spell table keys, maximum cardinalities
-    not below -1), all initial destination values (one per argument) and every abstract command
-    line, the evaluation returns normally only if the command line obeys every declared rule
-    (`Obeys`: mandatory ∧ values ∧ cardinality ∧ excludes ∧ requires ∧ handler constraints). -/
+    not below -1; the fourth clause of `Cfg.WellFormed` is only used by the converse, C03), all
+    initial destination values (one per argument) and every abstract command line, the evaluation
+    returns normally only if the command line obeys every declared rule (`Obeys`: mandatory ∧
+    values ∧ cardinality ∧ excludes ∧ requires ∧ handler constraints).  The corollaries below state
+    each rule in words under the hypotheses that rule needs. -/
 theorem C02_rules_sound (cfg : Cfg) (wf : cfg.WellFormed) (inits : List DVal)
     (hin : cfg.args.length ≤ inits.length) (us : List Use) (h : HState)
     (e : evalUses cfg (cfg.initState inits) us = .ok h) : Obeys cfg inits us :=
   rules_sound wf hin e
 
 /-- Mandatory: if the evaluation returns normally, every argument declared mandatory is used at
-    least once — or is a list destination that already held elements (`hasValue()` of a container is
-    "not empty"). -/
-theorem C02_mandatory (cfg : Cfg) (wf : cfg.WellFormed) (inits : List DVal)
+    least once (a list argument: with a value that has at least one element) — or is a list
+    destination that already held elements (`hasValue()` of a container is "not empty"). -/
+theorem C02_mandatory (cfg : Cfg) (inits : List DVal)
     (hin : cfg.args.length ≤ inits.length) (us : List Use) (h : HState)
     (e : evalUses cfg (cfg.initState inits) us = .ok h)
     (i : Nat) (d : ArgDef) (hd : cfg.args[i]? = some d) (hm : d.mandatory = true) :
-    (∃ u ∈ us, u.arg = i) ∨ (d.kind = .vecInt ∧ ∃ l, inits[i]? = some (.vec l) ∧ l ≠ []) :=
-  (rules_sound wf hin e).mandatory i d hd hm
+    (∃ u ∈ us, u.arg = i ∧ (d.kind = .vecInt → splitSep d.sep u.val ≠ [])) ∨
+    (d.kind = .vecInt ∧ ∃ l, inits[i]? = some (.vec l) ∧ l ≠ []) :=
+  (local_rules_sound hin e).1 i d hd hm
 
 /-- Values: if the evaluation returns normally, every value given converts to the destination type
     of its argument and passes every check attached to it (for a list value: every element). -/
-theorem C02_values_checked (cfg : Cfg) (wf : cfg.WellFormed) (inits : List DVal)
-    (hin : cfg.args.length ≤ inits.length) (us : List Use) (h : HState)
+theorem C02_values_checked (cfg : Cfg) (inits : List DVal) (us : List Use) (h : HState)
     (e : evalUses cfg (cfg.initState inits) us = .ok h) (u : Use) (hu : u ∈ us) :
     ∃ d, cfg.args[u.arg]? = some d ∧ ScalarValueOk d u.val :=
-  (rules_sound wf hin e).values u hu
+  values_sound e u hu
 
-/-- Cardinality: if the evaluation returns normally, the number of values given to each argument
+/-- Cardinality (maximum cardinalities not below -1 — `Cfg.WellFormed.cardSane`): if the evaluation
+    returns normally, the number of values given to each argument
     (one per use, one more per further element of a list value) is within what its cardinality
     allows: at most the maximum; zero or exactly `n`; zero or within the range. -/
-theorem C02_cardinality (cfg : Cfg) (wf : cfg.WellFormed) (inits : List DVal)
+theorem C02_cardinality (cfg : Cfg) (hsane : ∀ d ∈ cfg.args, d.card.Sane) (inits : List DVal)
     (hin : cfg.args.length ≤ inits.length) (us : List Use) (h : HState)
     (e : evalUses cfg (cfg.initState inits) us = .ok h) (i : Nat) (d : ArgDef) (hd : cfg.args[i]? = some d) :
     d.card.MetBy (valuesGiven cfg i us) :=
-  (rules_sound wf hin e).cardinality i d hd
+  (local_rules_sound hin e).2.1 hsane i d hd
 
-/-- Excludes: if the evaluation returns normally, no argument is given by key after a use of an
+/-- Excludes (table keys pairwise distinct, constraint keys spell table keys — `Cfg.WellFormed.disjoint`
+    and `.argKeys`): if the evaluation returns normally, no argument is given by key after a use of an
     argument that excludes it: whenever the use at position `p` is of an argument with an
     "excludes" constraint listing `k`, no later key occurrence (position `q > p`) is of an argument
     that `k` designates. -/
-theorem C02_excludes (cfg : Cfg) (wf : cfg.WellFormed) (inits : List DVal)
-    (hin : cfg.args.length ≤ inits.length) (us : List Use) (h : HState)
+theorem C02_excludes (cfg : Cfg) (hdis : Disjoint cfg.table)
+    (hkeys : ∀ d ∈ cfg.args, ∀ c ∈ d.constraints, ∀ k ∈ c.2, ∃ j, Names cfg k j)
+    (inits : List DVal) (us : List Use) (h : HState)
     (e : evalUses cfg (cfg.initState inits) us = .ok h)
     (p q : Nat) (u w : Use) (d : ArgDef) (ks : List Key) (k : Key)
     (hpq : p < q) (hu : us[p]? = some u) (hw : us[q]? = some w) (hwi : w.ident = true)
     (hd : cfg.args[u.arg]? = some d) (hc : (CType.excluded, ks) ∈ d.constraints) (hk : k ∈ ks) :
     ¬ Designates cfg k w.arg :=
-  (rules_sound wf hin e).excludes p q u w d ks k hpq hu hw hwi hd hc hk
+  (constraints_sound hdis hkeys e).1 p q u w d ks k hpq hu hw hwi hd hc hk
 
-/-- Requires: if the evaluation returns normally, every argument required by a used argument is
-    given by key after that use (the requirement takes effect where the requiring argument is
-    used). -/
-theorem C02_requires (cfg : Cfg) (wf : cfg.WellFormed) (inits : List DVal)
-    (hin : cfg.args.length ≤ inits.length) (us : List Use) (h : HState)
+/-- Requires (same two hypotheses as `C02_excludes`): if the evaluation returns normally, every
+    argument required by a used argument is given by key after that use (the requirement takes
+    effect where the requiring argument is used). -/
+theorem C02_requires (cfg : Cfg) (hdis : Disjoint cfg.table)
+    (hkeys : ∀ d ∈ cfg.args, ∀ c ∈ d.constraints, ∀ k ∈ c.2, ∃ j, Names cfg k j)
+    (inits : List DVal) (us : List Use) (h : HState)
     (e : evalUses cfg (cfg.initState inits) us = .ok h)
     (p : Nat) (u : Use) (d : ArgDef) (ks : List Key) (k : Key)
     (hu : us[p]? = some u) (hd : cfg.args[u.arg]? = some d)
     (hc : (CType.required, ks) ∈ d.constraints) (hk : k ∈ ks) :
     ∃ (q : Nat) (w : Use), p < q ∧ us[q]? = some w ∧ w.ident = true ∧ Designates cfg k w.arg :=
-  (rules_sound wf hin e).requires p u d ks k hu hd hc hk
+  (constraints_sound hdis hkeys e).2 p u d ks k hu hd hc hk
 
 /-- Handler constraints: if the evaluation returns normally, then for every handler constraint —
     all-of: every listed argument is given by key; any-of: at most one key occurrence of a listed
     argument; one-of: exactly one. -/
-theorem C02_handler_constraints (cfg : Cfg) (wf : cfg.WellFormed) (inits : List DVal)
+theorem C02_handler_constraints (cfg : Cfg) (inits : List DVal)
     (hin : cfg.args.length ≤ inits.length) (us : List Use) (h : HState)
     (e : evalUses cfg (cfg.initState inits) us = .ok h) (g : GDef) (hg : g ∈ cfg.globals) :
     match g.kind with
     | .allOf => ∀ k ∈ g.keys, ∃ u ∈ us, u.ident = true ∧ Designates cfg k u.arg
     | .anyOf => (listedUses cfg g us).length ≤ 1
     | .oneOf => (listedUses cfg g us).length = 1 :=
-  (rules_sound wf hin e).globals g hg
+  (local_rules_sound hin e).2.2 g hg
+
+/-- Values of a LevelCounter argument (whose rules are stateful and only approximated by
+    `ScalarValueOk`): if the evaluation returns normally, the values given to it obey the
+    LevelCounter rules in the order given — an increment (no value) never follows an assignment and
+    an assignment never follows any earlier use unless mixing is allowed, the incremented level
+    passes the checks, an assigned value passes the checks and converts. -/
+theorem C02_level_values (cfg : Cfg) (inits : List DVal) (hin : cfg.args.length ≤ inits.length)
+    (us : List Use) (h : HState) (e : evalUses cfg (cfg.initState inits) us = .ok h)
+    (i : Nat) (d : ArgDef) (v : DVal) (hd : cfg.args[i]? = some d) (hk : d.kind = .level)
+    (hv : inits[i]? = some v) : LevelValuesOk d (levelOf v) false false (valsOf i us) :=
+  level_rules_sound hin e hd hk hv
 
 /-! ### non-vacuity
 
@@ -137,5 +155,11 @@ example : (run [useQ, useN "1", useO "f"]).isThrow = true ∧ (run [useQ, useO "
 open CelmaVerif.ProgArgs.RulesExample in
 /-- rejected, handler constraint: `-n 1` (neither `-v` nor `-q`) -/
 example : (run [useN "1"]).isThrow = true := by decide
+
+/-- LevelCounter `-v`: `-v -v` is accepted, `-v -v 3` (assignment after increment) is rejected -/
+example :
+    (evalUses RulesExample.cfgLevel (RulesExample.cfgLevel.initState [.level 0]) [⟨0, [], true⟩, ⟨0, [], true⟩]).isOk = true ∧
+    (evalUses RulesExample.cfgLevel (RulesExample.cfgLevel.initState [.level 0]) [⟨0, [], true⟩, ⟨0, ['3'], true⟩]).isThrow = true := by
+  decide
 
 end CelmaVerif.Props.C02
